@@ -1093,6 +1093,157 @@ Section Acyclic.
 End Acyclic.
 
 (* ---------------------------------------------------------------------------------------- *)
+(* invariant 4 (every schedule): _resolution_depth counts the step invocations that are inside their
+   scope, and the scope cache is empty whenever there is none                                   *)
+
+Section Depth.
+  Variable g : graph.
+
+  Definition is_running (t : task) : bool := match t_status t with TRunning => true | _ => false end.
+
+  Record DInv (s : st) : Prop := mkDInv {
+    d_keys : NoDup (akeys (s_tasks s));
+    d_depth : m_depth (s_mgr s) = Z.of_nat (acount is_running (s_tasks s));
+    d_clear : m_depth (s_mgr s) = 0 -> m_rcache (s_mgr s) = []
+  }.
+
+  Lemma DInv_init : DInv init.
+  Proof. constructor; cbn; [constructor|reflexivity|reflexivity]. Qed.
+
+  Lemma DInv_upd : forall s tid t m' t', DInv s -> task_at s tid t ->
+    m_depth m' + (if is_running t then 1 else 0) = m_depth (s_mgr s) + (if is_running t' then 1 else 0) ->
+    (m_depth m' = 0 -> m_rcache m' = []) ->
+    DInv (upd s tid m' t').
+  Proof.
+    intros s tid t m' t' [A B C] H0 Hd Hc. constructor; cbn [upd s_mgr s_tasks].
+    - rewrite akeys_aupd. exact A.
+    - pose proof (acount_aupd is_running tid t' t (s_tasks s) A H0) as H.
+      destruct (is_running t), (is_running t'); lia.
+    - exact Hc.
+  Qed.
+
+  Lemma scope_exit_depth : forall m, m_depth (scope_exit m) = m_depth m - 1 /\
+    (m_depth (scope_exit m) = 0 -> m_rcache (scope_exit m) = []).
+  Proof.
+    intros m. unfold scope_exit. cbn [m_depth m_rcache]. split; [reflexivity|].
+    intros H. rewrite H. reflexivity.
+  Qed.
+
+  Lemma micro_dinv : forall s tid t m' t' y, DInv s -> task_at s tid t ->
+    micro g tid (s_mgr s) t = (m', t', y) -> DInv (upd s tid m' t').
+  Proof.
+    intros s tid t m' t' y Hd H0 Hm. pose proof Hd as [A B C].
+    assert (Hpos : is_running t = true -> 1 <= m_depth (s_mgr s)).
+    { intros Hr. rewrite B. pose proof (acount_aupd is_running tid t t (s_tasks s) A H0) as H.
+      assert (Hc : (1 <= acount is_running (s_tasks s))%nat).
+      { clear H. unfold task_at in H0. revert H0. generalize (s_tasks s). induction l as [|[k v] l IH]; cbn [alookup]; [discriminate|].
+        rewrite acount_cons. destruct (k =? tid); [intros E; inversion E; subst; rewrite Hr; lia|intros E; specialize (IH E); lia]. }
+      lia. }
+    assert (Hfail : forall k x, is_running t = true ->
+              DInv (upd s tid (fst (fail_task k x (s_mgr s) t)) (snd (fail_task k x (s_mgr s) t)))).
+    { intros k x Hr. unfold fail_task. cbn [fst snd]. apply DInv_upd with (t := t); auto.
+      - rewrite Hr. unfold is_running. cbn [t_status]. destruct (scope_exit_depth
+          (mkMgr (m_resources (s_mgr s)) (unwind (t_stack t) (m_resolving (s_mgr s))) (m_rcache (s_mgr s))
+                 (m_depth (s_mgr s)) (m_next (s_mgr s)) (m_created (s_mgr s)))) as (E1 & _).
+        rewrite E1. cbn [m_depth]. lia.
+      - apply scope_exit_depth. }
+    assert (Hsame : forall mm tt, m_depth mm = m_depth (s_mgr s) -> is_running tt = is_running t -> is_running t = true ->
+              DInv (upd s tid mm tt)).
+    { intros mm tt Hdm Hrr Hr. apply DInv_upd with (t := t); auto.
+      - rewrite Hdm, Hrr. reflexivity.
+      - intros Hz. rewrite Hdm in Hz. specialize (Hpos Hr). lia. }
+    assert (Hdel : forall x v tt, is_running (deliver x v tt) = is_running tt).
+    { intros x v tt. unfold is_running. destruct (deliver_shape g x v tt) as (_ & S2 & _). rewrite S2. reflexivity. }
+    assert (Hcall : forall x mc tc, is_running t = true -> call g x (s_mgr s) t = (mc, tc) -> DInv (upd s tid mc tc)).
+    { intros x mc tc Hr Hc. unfold call in Hc. destruct (mem x (m_resolving (s_mgr s))).
+      - pose proof (Hfail 1 x Hr) as Hf. rewrite Hc in Hf. exact Hf.
+      - destruct (if n_cache (node_of g x) then alookup x (m_resources (s_mgr s)) else None).
+        + inversion Hc; subst. apply Hsame; auto.
+        + destruct (alookup x (m_rcache (s_mgr s))).
+          * inversion Hc; subst. apply Hsame; auto.
+          * inversion Hc; subst. apply Hsame; auto. }
+    unfold micro in Hm. destruct (t_status t) eqn:Est.
+    - inversion Hm; subst. apply DInv_upd with (t := t); auto; cbn [m_depth m_rcache].
+      + unfold is_running. rewrite Est. cbn [t_status]. lia.
+      + intros Hz. rewrite B in Hz. lia.
+    - assert (Hr : is_running t = true) by (unfold is_running; rewrite Est; reflexivity).
+      destruct (t_stack t) as [|f rest] eqn:Estk.
+      + destruct (t_params t) as [|p ps].
+        * inversion Hm; subst. apply DInv_upd with (t := t); auto.
+          -- rewrite Hr. unfold is_running. cbn [t_status]. destruct (scope_exit_depth (s_mgr s)) as (E1 & _). rewrite E1. lia.
+          -- apply scope_exit_depth.
+        * destruct (call g p (s_mgr s) t) as [mc tc] eqn:Ec. inversion Hm; subst. eapply Hcall; eauto.
+      + destruct (f_todo f) as [|d ds].
+        * destruct (f_susp f).
+          -- unfold finish_frame in Hm. destruct (n_fails (node_of g (f_name f))).
+             ++ pose proof (Hfail 2 (f_name f) Hr) as Hf. destruct (fail_task 2 (f_name f) (s_mgr s) t) as [mf tf].
+                inversion Hm; subst. exact Hf.
+             ++ inversion Hm; subst. apply Hsame; auto. rewrite Hdel. unfold is_running. cbn [t_status]. rewrite Est. reflexivity.
+          -- inversion Hm; subst. apply Hsame; auto.
+        * destruct (call g d (s_mgr s) t) as [mc tc] eqn:Ec. inversion Hm; subst. eapply Hcall; eauto.
+    - inversion Hm; subst. apply DInv_upd with (t := t'); auto.
+    - inversion Hm; subst. apply DInv_upd with (t := t'); auto.
+  Qed.
+
+  Lemma DInv_refl : forall s tid t, DInv s -> task_at s tid t -> DInv (upd s tid (s_mgr s) t).
+  Proof. intros s tid t Hd H0. pose proof Hd as [A B C]. apply DInv_upd with (t := t); auto. Qed.
+
+  Lemma advance_dinv : forall fuel s tid t, DInv s -> task_at s tid t ->
+    DInv (upd s tid (fst (advance fuel g tid (s_mgr s) t)) (snd (advance fuel g tid (s_mgr s) t))).
+  Proof.
+    induction fuel as [|k IH]; intros s tid t Hi H0; cbn [advance].
+    - apply DInv_refl; assumption.
+    - destruct (terminal t); [apply DInv_refl; assumption|].
+      destruct (micro g tid (s_mgr s) t) as [[m' t'] y] eqn:Em.
+      pose proof (micro_dinv s tid t m' t' y Hi H0 Em) as H1.
+      destruct y; [exact H1|].
+      pose proof (IH (upd s tid m' t') tid t' H1 (task_at_upd_same _ _ _ _ _ H0)) as H2.
+      cbn [upd s_mgr] in H2. rewrite upd_upd in H2. exact H2.
+  Qed.
+
+  Variable fuel : nat.
+
+  Theorem step_dinv : forall s a, DInv s -> DInv (step g fuel s a).
+  Proof.
+    intros s a Hd. pose proof Hd as [A B C]. destruct a as [tid params|tid]; cbn [step].
+    - destruct (alookup tid (s_tasks s)) eqn:El; [exact Hd|]. constructor; cbn [s_mgr s_tasks]; auto.
+      + rewrite akeys_app. cbn. apply NoDup_snoc; [exact A|]. apply alookup_None_notin. exact El.
+      + rewrite acount_app. unfold acount at 2. cbn. lia.
+    - destruct (alookup tid (s_tasks s)) as [t|] eqn:El; [|exact Hd].
+      pose proof (advance_dinv fuel s tid t Hd El) as H.
+      destruct (advance fuel g tid (s_mgr s) t) as [m' t']. exact H.
+  Qed.
+
+  Theorem reachable_dinv : forall sched, DInv (exec g fuel init sched).
+  Proof. intros. unfold exec. apply inv_all_schedules; [apply step_dinv|apply DInv_init]. Qed.
+
+  (* between step invocations the manager is clean: nothing is marked as resolving, the depth is 0 and
+     the scope cache is empty — so an invocation that does not overlap another one starts from scratch *)
+  Theorem idle_manager_is_clean : forall sched,
+    let s := exec g fuel init sched in
+    (forall tid t, task_at s tid t -> t_status t <> TRunning) ->
+    m_resolving (s_mgr s) = [] /\ m_depth (s_mgr s) = 0 /\ m_rcache (s_mgr s) = [].
+  Proof.
+    intros sched s Hall. pose proof (reachable_dinv sched) as Hd. pose proof (reachable_inv2 g fuel sched) as Hi2.
+    fold s in Hd, Hi2. destruct Hd as [A B C].
+    assert (Hz : acount is_running (s_tasks s) = 0%nat).
+    { apply acount_zero_iff. intros k v Hin. unfold is_running.
+      assert (Hat : task_at s k v).
+      { unfold task_at. clear - A Hin. revert A Hin. generalize (s_tasks s). induction l as [|[k' v'] l IH]; intros A Hin; [destruct Hin|].
+        cbn [akeys map fst] in A. inversion A as [|? ? Hni Hnd]; subst. cbn [alookup]. destruct Hin as [E|Hin].
+        - inversion E; subst. rewrite Z.eqb_refl. reflexivity.
+        - destruct (k' =? k) eqn:Ek; [|apply IH; assumption].
+          apply Z.eqb_eq in Ek. subst k'. exfalso. apply Hni. change k with (fst (k, v)). apply in_map. exact Hin. }
+      specialize (Hall k v Hat). destruct (t_status v); try reflexivity. contradiction. }
+    assert (Hdz : m_depth (s_mgr s) = 0) by (rewrite B, Hz; reflexivity).
+    split; [|split; [exact Hdz|apply C; exact Hdz]].
+    destruct (m_resolving (s_mgr s)) as [|x rs] eqn:Ers; [reflexivity|]. exfalso.
+    destruct (j_rs_frame g s Hi2 x) as (tid & t & f & Hat & Hf & _); [rewrite Ers; left; reflexivity|].
+    rewrite (j_idle g s Hi2 tid t Hat (Hall tid t Hat)) in Hf. destruct Hf.
+  Qed.
+End Depth.
+
+(* ---------------------------------------------------------------------------------------- *)
 (* witnesses and examples used by Properties/C22.v                                            *)
 
 Lemma micro_err_reachable : forall g fuel sched tid t m' t' y x,
